@@ -206,6 +206,18 @@ TPair == IsEvent("blspair") /\ LET e == Rec[l] key == MMul(Qm, NMod(e.a, Qm), NM
           /\ (Has(e, "gt") => PowGrounded(e, key))
           /\ e.ours_pow = e.ours                                       \* e(aG1, bG2) = e(G1, G2)^(ab)
           /\ Observe("GT", key, e.ours)
+\* a product of pairings (multi_pairing; multi_miller_loop then final_exponentiation on prepared inputs; the product
+\* of the single pairings): the exponent is the sum of the products a_i b_i
+RECURSIVE SumProd(_, _, _, _)
+SumProd(xa, xb, i, acc) == IF i > Len(xa) THEN acc
+                           ELSE SumProd(xa, xb, i + 1, MAdd(Qm, acc, MMul(Qm, NMod(xa[i], Qm), NMod(xb[i], Qm))))
+TMPair == IsEvent("blsmpair") /\ LET e == Rec[l] key == SumProd(e.aa, e.bb, 1, MZero(Qm)) IN
+          /\ Len(e.aa) = Len(e.bb)
+          /\ e.ours = e.ref /\ e.ours_ml_fe = e.ours /\ e.ours_prod = e.ours
+          /\ Observe("GT", key, e.ours)
+\* multi-scalar multiplication over bases a_i*G with scalars s_i: the exponent is the sum of the a_i s_i
+TMsmG == IsEvent("blsmsm") /\ LET e == Rec[l] key == SumProd(e.aa, e.ss, 1, MZero(Qm)) IN
+          /\ Len(e.aa) = Len(e.ss) /\ e.ours = e.ref /\ Observe(e.grp, key, e.ours)
 \* configuration constants of the tower and the two curves: identical to the reference engine's
 TBlsConst == IsEvent("blsconst") /\ LET e == Rec[l] IN e.ours = e.ref /\ Len(e.ours) > 0 /\ UNCHANGED tab
 \* the Frobenius endomorphism x -> x^(p^i) agrees with plain exponentiation (no precomputed coefficient
@@ -242,7 +254,7 @@ TRaw == IsEvent("blsraw") /\ LET e == Rec[l] IN
           /\ (e.what # "canonical") => (~e.ours_ok_v /\ ~e.ours_ok_u)
           /\ UNCHANGED tab
 TForce == l <= Len(Rec) /\ Has(Rec[l], "force") /\ l' = l + 1 /\ UNCHANGED tab
-PNext == TReset \/ TGen \/ TMul \/ TPair \/ TBlsConst \/ TFrob \/ TDeser \/ TPt \/ TRaw \/ TForce
+PNext == TReset \/ TGen \/ TMul \/ TPair \/ TBlsConst \/ TFrob \/ TDeser \/ TPt \/ TRaw \/ TMPair \/ TMsmG \/ TForce
 PSpec == PInit /\ [][PNext]_pvars
 \* non-degeneracy and bilinearity as a state invariant over what has been observed (maintained step by step by
 \* Observe; not re-checked in every state because it is quadratic in the table size)
